@@ -93,7 +93,8 @@ Definition flags_of (c : subcmd) (args : list string) (types : list string) (spe
      fl_file := file; fl_sep := sep; fl_dir := "." |}.
 
 Lemma parse_type_list : forall c L, L <> [] -> (forall T, In T L -> is_ident T = true) ->
-  exists vals, parse_common c ["-type=" ++ join "," L] = POk (flags_of c ["-type=" ++ join "," L] L true "" true) vals.
+  parse_common c ["-type=" ++ join "," L] =
+  POk (flags_of c ["-type=" ++ join "," L] L true "" true) [("type", join "," L)].
 Proof.
   intros c L Hne Hid. destruct (join_ident_head L Hne Hid) as [ch [s [Hj Hl]]].
   pose proof (split_join L Hne Hid) as Hs.
@@ -101,7 +102,6 @@ Proof.
   assert (Hne2 : (join "," L =? "*") = false).
   { rewrite Hj. destruct (String ch s =? "*") eqn:E; [|reflexivity]. apply String.eqb_eq in E. inversion E; subst.
     vm_compute in Hl. discriminate. }
-  exists [("type", join "," L)].
   unfold parse_common. simpl Datatypes.length.
   assert (Hp : parse_args c 1 ["-type=" ++ join "," L] [] = PFlags [("type", join "," L)] []).
   { destruct c; reflexivity. }
@@ -109,28 +109,30 @@ Proof.
 Qed.
 
 Lemma parse_file_arg : forall c f, f <> "" ->
-  exists vals, parse_common c ["-file=" ++ f] = POk (flags_of c ["-file=" ++ f] [] false f false) vals.
+  parse_common c ["-file=" ++ f] = POk (flags_of c ["-file=" ++ f] [] false f false) [("file", f)].
 Proof.
-  intros c f Hne. exists [("file", f)]. apply String.eqb_neq in Hne. unfold parse_common. simpl Datatypes.length.
+  intros c f Hne. apply String.eqb_neq in Hne. unfold parse_common. simpl Datatypes.length.
   assert (Hp : parse_args c 1 ["-file=" ++ f] [] = PFlags [("file", f)] []) by (destruct c; reflexivity).
   rewrite Hp. simpl flag_val. simpl. rewrite Hne. unfold flags_of. reflexivity.
 Qed.
 
 Lemma parse_file_sep : forall c f, f <> "" ->
-  exists vals, parse_common c ["-file=" ++ f; "-sep"] = POk (flags_of c ["-file=" ++ f; "-sep"] [] false f true) vals.
+  parse_common c ["-file=" ++ f; "-sep"] =
+  POk (flags_of c ["-file=" ++ f; "-sep"] [] false f true) [("file", f); ("sep", "true")].
 Proof.
-  intros c f Hne. exists [("file", f); ("sep", "true")]. apply String.eqb_neq in Hne. unfold parse_common. simpl Datatypes.length.
+  intros c f Hne. apply String.eqb_neq in Hne. unfold parse_common. simpl Datatypes.length.
   assert (Hp : parse_args c 2 ["-file=" ++ f; "-sep"] [] = PFlags [("file", f); ("sep", "true")] []) by (destruct c; reflexivity).
   rewrite Hp. simpl flag_val. simpl. rewrite Hne. unfold flags_of. reflexivity.
 Qed.
 
 Lemma parse_star : forall c,
-  exists vals, parse_common c ["-type=*"] = POk (flags_of c ["-type=*"] ["*"] false "" false) vals.
-Proof. intros c. eexists. destruct c; reflexivity. Qed.
+  parse_common c ["-type=*"] = POk (flags_of c ["-type=*"] ["*"] false "" false) [("type", "*")].
+Proof. intros c. destruct c; reflexivity. Qed.
 
 Lemma parse_star_sep : forall c,
-  exists vals, parse_common c ["-type=*"; "-sep"] = POk (flags_of c ["-type=*"; "-sep"] ["*"] false "" true) vals.
-Proof. intros c. eexists. destruct c; reflexivity. Qed.
+  parse_common c ["-type=*"; "-sep"] =
+  POk (flags_of c ["-type=*"; "-sep"] ["*"] false "" true) [("type", "*"); ("sep", "true")].
+Proof. intros c. destruct c; reflexivity. Qed.
 
 (* an explicit -type list forces one file per type whatever -sep says *)
 Lemma parse_type_list_sep_false : forall c T, is_ident T = true ->
@@ -151,18 +153,25 @@ Qed.
 
 (* ------------------------------------------------ end to end, over argv *)
 
+(* without `map -to` the front end is [run] on the parsed flags *)
+Lemma shoot_cli_run : forall o c args p fl vals, parse_common c args = POk fl vals ->
+  flag_val "to" vals "" = "" -> shoot_cli o c args p = COut (run o c fl p).
+Proof.
+  intros o c args p fl vals Hp Ht. unfold shoot_cli. rewrite Hp, Ht. simpl. rewrite andb_false_r. reflexivity.
+Qed.
+
 Theorem cli_type_list : forall o c p L,
   perm_oracle o -> wf_pkgb p = true -> L <> [] ->
   (forall T, In T L -> nameable c p T = true) ->
   NoDup (map (fun T => per_type_name c (decl_file p T) T) L) ->
   shoot_cli o c ["-type=" ++ join "," L] p =
-  COut (Done (map (fun T => (per_type_name c (decl_file p T) T, [T])) L)
-             (o _ (map (fun T => per_type_name c (decl_file p T) T) L))).
+  COut (Done (o _ (map (fun T => (per_type_name c (decl_file p T) T, [T])) L))
+             (map fst (o _ (map (fun T => (per_type_name c (decl_file p T) T, [T])) L)))).
 Proof.
   intros o c p L Ho Hwf Hne Hall Hnd.
   assert (Hid : forall T, In T L -> is_ident T = true).
   { intros T HT. apply (nameable_ident c p T (wf_pkgb_wf p Hwf)). apply Hall. exact HT. }
-  destruct (parse_type_list c L Hne Hid) as [vals Hp]. unfold shoot_cli. rewrite Hp. f_equal.
+  rewrite (shoot_cli_run o c _ p _ _ (parse_type_list c L Hne Hid) eq_refl). f_equal.
   apply (type_list_exact o c (flags_of c ["-type=" ++ join "," L] L true "" true) p); try assumption; reflexivity.
 Qed.
 
@@ -173,7 +182,7 @@ Theorem cli_bad_name : forall o c p L T,
 Proof.
   intros o c p L T Ho Hwf Hid HT Hn.
   assert (Hne : L <> []) by (intros C; subst; contradiction).
-  destruct (parse_type_list c L Hne Hid) as [vals Hp]. unfold shoot_cli. rewrite Hp.
+  rewrite (shoot_cli_run o c _ p _ _ (parse_type_list c L Hne Hid) eq_refl).
   destruct (bad_name_fails o c (flags_of c ["-type=" ++ join "," L] L true "" true) p T Ho Hwf eq_refl HT Hn) as [d Hd].
   exists d. rewrite Hd. reflexivity.
 Qed.
@@ -183,15 +192,15 @@ Theorem cli_file : forall o c p f,
   let sel := map ts_name (filter (listable c p) (top_specs f)) in
   shoot_cli o c ["-file=" ++ f_name f] p =
   COut (match sel with
-        | [] => Done [] (o _ [])
+        | [] => Done [] []
         | _ => Done [(trim_go (f_name f) ++ "." ++ shootcmd c ++ ".go", sel)]
-                    (o _ [trim_go (f_name f) ++ "." ++ shootcmd c ++ ".go"])
+                    [trim_go (f_name f) ++ "." ++ shootcmd c ++ ".go"]
         end).
 Proof.
   intros o c p f Ho Hwf Hf Hgo sel.
   assert (Hne : f_name f <> "").
   { intros C. pose proof (wf_visible p (wf_pkgb_wf p Hwf) f Hf) as V. rewrite C in V. discriminate. }
-  destruct (parse_file_arg c (f_name f) Hne) as [vals Hp]. unfold shoot_cli. rewrite Hp. f_equal.
+  rewrite (shoot_cli_run o c _ p _ _ (parse_file_arg c (f_name f) Hne) eq_refl). f_equal.
   apply (file_mode_exact o c (flags_of c ["-file=" ++ f_name f] [] false (f_name f) false) p f); try assumption; reflexivity.
 Qed.
 
@@ -201,13 +210,13 @@ Theorem cli_star : forall o c p g,
   let sel := map ts_name (filter (listable c p) (pkg_specs p)) in
   shoot_cli o c ["-type=*"] p =
   COut (match sel with
-        | [] => Done [] (o _ [])
+        | [] => Done [] []
         | _ => Done [(trim_go (f_name g) ++ "." ++ shootcmd c ++ ".go", sel)]
-                    (o _ [trim_go (f_name g) ++ "." ++ shootcmd c ++ ".go"])
+                    [trim_go (f_name g) ++ "." ++ shootcmd c ++ ".go"]
         end).
 Proof.
   intros o c p g Ho Hwf Hg sel.
-  destruct (parse_star c) as [vals Hp]. unfold shoot_cli. rewrite Hp. f_equal.
+  rewrite (shoot_cli_run o c _ p _ _ (parse_star c) eq_refl). f_equal.
   set (fl := flags_of c ["-type=*"] ["*"] false "" false).
   assert (Haio : all_in_one_file fl p = f_name g).
   { unfold all_in_one_file.
@@ -226,7 +235,19 @@ Theorem cli_name_clash : forall o c p L,
   exists d, shoot_cli o c ["-type=" ++ join "," L] p = COut (Failed d).
 Proof.
   intros o c p L Ho Hwf Hne Hid Hnd.
-  destruct (parse_type_list c L Hne Hid) as [vals Hp]. unfold shoot_cli. rewrite Hp.
+  rewrite (shoot_cli_run o c _ p _ _ (parse_type_list c L Hne Hid) eq_refl).
   destruct (name_clash_fails o c (flags_of c ["-type=" ++ join "," L] L true "" true) p Ho Hwf eq_refl eq_refl eq_refl Hnd) as [d Hd].
   exists d. rewrite Hd. reflexivity.
+Qed.
+
+(* `-file=x_test.go` (or any existing .go file that is not a file of the package): nothing is generated *)
+Theorem cli_other_file : forall o c p F,
+  perm_oracle o -> wf_pkgb p = true ->
+  In F (p_others p) -> ~ In F (map f_name (p_files p)) -> ends_with ".go" F = true ->
+  shoot_cli o c ["-file=" ++ F] p = COut (Done [] []).
+Proof.
+  intros o c p F Ho Hwf Hin Hnot Hgo.
+  assert (Hne : F <> "") by (intros C; subst; discriminate).
+  rewrite (shoot_cli_run o c _ p _ _ (parse_file_arg c F Hne) eq_refl). f_equal.
+  apply (other_file_generates_nothing o c (flags_of c ["-file=" ++ F] [] false F false) p); try assumption; reflexivity.
 Qed.
